@@ -10,6 +10,7 @@ import (
 	"path/filepath"
 	"regexp"
 	"runtime"
+	"runtime/pprof"
 	"sort"
 	"strconv"
 	"strings"
@@ -97,6 +98,14 @@ func main() {
 	if v := os.Getenv("SYMGO_VERIF"); v != "" {
 		verifDir = v
 	}
+	if pf := os.Getenv("SYMGO_PROF"); pf != "" {
+		f, _ := os.Create(pf)
+		pprof.StartCPUProfile(f)
+		defer pprof.StopCPUProfile()
+	}
+	if os.Getenv("SYMGO_QSTAT") != "" {
+		qstat = map[string]int{}
+	}
 	if len(os.Args) < 2 {
 		fmt.Fprintln(os.Stderr, "usage: symgo check <property> <quick|thorough> | selftest")
 		os.Exit(2)
@@ -111,7 +120,25 @@ func main() {
 		solver := fs.String("solver", "z3-new", "solver back end")
 		verbose := fs.Bool("v", false, "verbose")
 		fs.Parse(os.Args[4:])
-		os.Exit(runCheck(os.Args[2], os.Args[3], *only, *trace, *workers, *noReplay, *solver, *verbose))
+		rc := runCheck(os.Args[2], os.Args[3], *only, *trace, *workers, *noReplay, *solver, *verbose)
+		pprof.StopCPUProfile()
+		if qstat != nil {
+			type kv struct {
+				k string
+				v int
+			}
+			var kvs []kv
+			for k, v := range qstat {
+				kvs = append(kvs, kv{k, v})
+			}
+			sort.Slice(kvs, func(i, j int) bool { return kvs[i].v > kvs[j].v })
+			for i, x := range kvs {
+				if i < 40 {
+					fmt.Fprintf(os.Stderr, "%8d %s\n", x.v, x.k)
+				}
+			}
+		}
+		os.Exit(rc)
 	default:
 		fmt.Fprintln(os.Stderr, "unknown command")
 		os.Exit(2)
@@ -438,6 +465,7 @@ func runCheck(prop, tier, only string, trace bool, workers int, noReplay bool, s
 	// ----- report -----
 	inconclusive := false
 	totalViol := 0
+	knownPrinted := map[string]bool{}
 	for _, hr := range results {
 		if hr.Skipped {
 			fmt.Printf("harness %s: skipped in tier %s\n", hr.Spec.Name, tier)
@@ -452,8 +480,8 @@ func runCheck(prop, tier, only string, trace bool, workers int, noReplay bool, s
 		if len(hr.Confirmed) > 0 {
 			status = "VIOLATED"
 		}
-		fmt.Printf("harness %s: %s paths=%d obligations=%d discharged=%d solver_queries=%d solver_time=%.1fs wall=%.1fs\n",
-			hr.Spec.Name, status, s.pathsDone, s.obligations, s.discharged, s.solver.Queries, s.solver.Time.Seconds(), hr.Wall.Seconds())
+		fmt.Printf("harness %s: %s paths=%d obligations=%d discharged=%d solver_queries=%d cache_hits=%d solver_time=%.1fs wall=%.1fs\n",
+			hr.Spec.Name, status, s.pathsDone, s.obligations, s.discharged, s.solver.Queries, s.qhits, s.solver.Time.Seconds(), hr.Wall.Seconds())
 		for _, k := range sortedKeys(s.inconclusive) {
 			fmt.Printf("  inconclusive: %s (x%d)\n", trunc(k, 600), s.inconclusive[k])
 		}
@@ -464,7 +492,12 @@ func runCheck(prop, tier, only string, trace bool, workers int, noReplay bool, s
 			fmt.Printf("  unconfirmed counterexample (%s %s) native outcome=%q values=%v: encoding or stub error\n", v.Kind, v.ID, v.Replayed, v.Values)
 		}
 		for _, kid := range sortedKeys(hr.KnownHits) {
-			fmt.Printf("KNOWN-FINDING: property=%s %s [%s] %s\n", prop, kid, hr.Spec.Name, known[kid].What)
+			if !knownPrinted[kid] {
+				knownPrinted[kid] = true
+				fmt.Printf("KNOWN-FINDING: property=%s %s [first seen in harness %s] %s\n", prop, kid, hr.Spec.Name, known[kid].What)
+			} else {
+				fmt.Printf("  (known finding %s also reproduced in harness %s)\n", kid, hr.Spec.Name)
+			}
 		}
 		for _, v := range hr.Confirmed {
 			totalViol++
